@@ -37,6 +37,14 @@ fn cmp<'a, T: Deserialize<'a> + PartialEq + Debug>(out: &mut Out, name: &str, te
     }
 }
 
+/// the same comparison through from_slice on bytes that need not be UTF-8
+fn cmp_bytes<'a, T: Deserialize<'a> + PartialEq + Debug>(out: &mut Out, name: &str, input: &'a [u8]) {
+    let a = canon(guarded(|| sonic_rs::from_slice::<T>(input)));
+    let b = canon(guarded(|| serde_json::from_slice::<T>(input)));
+    out.count(&format!("{}:{}", name, if b.starts_with("ok") { "ok" } else { "err" }));
+    out.case("same", &[name, &hex(input), &b], &a, input.len() > 2);
+}
+
 macro_rules! family {
     ($m:ident) => {
         $m!("bool", bool, Shape::Bool);
@@ -136,6 +144,45 @@ pub fn run_c04(out: &mut Out, tier: &str, seed: u64) {
         let e = format!("{{\"New\":{lit}}}");
         cmp::<Ext>(out, "Ext", &e);
     }
+    // byte-like targets (and their neighbours) fed through from_slice with strings that are not UTF-8: once, twice,
+    // with a str parsed in between (a member name or a String element)
+    {
+        use serde_bytes::ByteBuf;
+        #[derive(Deserialize, PartialEq, Debug)]
+        struct TwoBufs {
+            a: ByteBuf,
+            b: ByteBuf,
+        }
+        #[derive(Deserialize, PartialEq, Debug)]
+        struct BufStr {
+            a: ByteBuf,
+            s: String,
+            #[serde(default)]
+            c: Option<ByteBuf>,
+        }
+        let pieces: [&[u8]; 8] = [b"\"\xff\"", b"\"ok\"", b"\"\xfe\xfe\"", b"\"a\xc3\"", b"\"\xe4\xb8\xad\"", b"\"\\n\xff\"", b"\"\"", b"\"x\xf0\x9f\""];
+        for i in 0..(if tier == "thorough" { 1200 } else { 200 }) {
+            let (p1, p2, p3) = (*rng.pick(&pieces), *rng.pick(&pieces), *rng.pick(&pieces));
+            let mut t: Vec<u8> = Vec::new();
+            t.push(b'[');
+            t.extend_from_slice(p1); t.push(b','); t.extend_from_slice(p2); t.push(b','); t.extend_from_slice(p3);
+            t.push(b']');
+            cmp_bytes::<(ByteBuf, String, ByteBuf)>(out, "(ByteBuf,String,ByteBuf)", &t);
+            cmp_bytes::<Vec<ByteBuf>>(out, "Vec<ByteBuf>", &t);
+            cmp_bytes::<(ByteBuf, ByteBuf, ByteBuf)>(out, "(ByteBuf,ByteBuf,ByteBuf)", &t);
+            cmp_bytes::<Vec<String>>(out, "Vec<String>", &t);
+            let mut o: Vec<u8> = b"{\"a\":".to_vec();
+            o.extend_from_slice(p1); o.extend_from_slice(b",\"b\":"); o.extend_from_slice(p3); o.push(b'}');
+            cmp_bytes::<TwoBufs>(out, "TwoBufs", &o);
+            let mut o: Vec<u8> = b"{\"a\":".to_vec();
+            o.extend_from_slice(p1); o.extend_from_slice(b",\"s\":"); o.extend_from_slice(p2);
+            if i % 2 == 0 { o.extend_from_slice(b",\"c\":"); o.extend_from_slice(p3); }
+            o.push(b'}');
+            cmp_bytes::<BufStr>(out, "BufStr", &o);
+            cmp_bytes::<ByteBuf>(out, "ByteBuf", p1);
+            cmp_bytes::<String>(out, "String", p1);
+        }
+    }
     // borrowed strings behind serde's buffering containers
     let tag = |vs: &[&'static str]| Shape::Enum(vs.iter().map(|v| (*v, None)).collect());
     let ub = Shape::Any;
@@ -212,6 +259,19 @@ pub fn run_c19(out: &mut Out, tier: &str, seed: u64) {
         }};
     }
     family!(one);
+    // enum payloads that are written as null / unit, bare and inside containers
+    {
+        let singles = ["{\"N\":null}", "{\"N\":5}", "{\"U\":null}", "{\"S\":null}", "\"Z\"", "{\"T\":null}", "{\"T\":true}", "{\"W\":-3}", "{\"R\":{\"a\":null}}", "{\"R\":{}}", "{\"Z\":null}"];
+        for t in singles {
+            via_dom::<NullPay>(out, "NullPay", t);
+            via_dom::<Vec<NullPay>>(out, "Vec<NullPay>", &format!("[{t},\"Z\",{t}]"));
+            via_dom::<Option<NullPay>>(out, "Option<NullPay>", t);
+            via_dom::<BTreeMap<String, NullPay>>(out, "BTreeMap<String,NullPay>", &format!("{{\"k\":{t}}}"));
+            for u in singles {
+                via_dom::<HoldsNullPay>(out, "HoldsNullPay", &format!("{{\"e\":{t},\"v\":[{u}],\"o\":{}}}", if t.len() % 2 == 0 { "null" } else { u }));
+            }
+        }
+    }
     // the whole serde data model through to_value: the DOM must denote the value (model: SerVal.expect)
     for _ in 0..(if tier == "thorough" { 20000 } else { 2500 }) {
         let v = sval::gen_sval(&mut rng, 0);
